@@ -55,8 +55,58 @@ def _parent(path):
 def normalize(raw):
     """mutates raw; returns a description of what was aligned"""
     pin = pinned()
-    cur = shape_of(raw)
     log = {"fields": {}, "params": {}, "fns": {}}
+    # ---- types moved to another module (`sorter::EntryBoundAlignedBuffer` -> `sorter::aligned_buffer::…`): the only
+    # pinned type of that name that is missing, the only new type of that name, same kind and (for structs) same
+    # fields — every path of the fact file is rewritten to the pinned one before anything else is compared
+    known_adts = set(pin["adts"]) | set(pin.get("enums", []))
+    have = {a["path"]: a for a in raw["adts"]}
+    tmap = {}
+    for p in sorted(known_adts):
+        if p in have:
+            continue
+        last = p.rsplit("::", 1)[-1]
+        cands = [q for q, a in have.items() if q not in known_adts and q.rsplit("::", 1)[-1] == last and not q.startswith(("std::", "core::", "alloc::"))]
+        others = [x for x in known_adts if x not in have and x.rsplit("::", 1)[-1] == last]
+        if len(cands) != 1 or len(others) != 1:
+            continue
+        q = cands[0]
+        if p in pin["adts"]:
+            fs = [[f["name"], f["ty"].replace(q, p)] for f in have[q]["variants"][0]["fields"]] if have[q]["kind"] == "Struct" and have[q]["variants"] else None
+            if fs is None or [n for n, t in fs] != [n for n, t in pin["adts"][p]]:
+                continue
+        elif have[q]["kind"] != "Enum":
+            continue
+        tmap[q] = p
+    # ---- types renamed in place: same module, same field names and types (structs) / same variant names (enums),
+    # the only missing and the only new type of that shape
+    def _shape(a, self_path):
+        if a["kind"] == "Struct" and a["variants"]:
+            return ("S", tuple((f["name"], f["ty"].replace(self_path, "Self")) for f in a["variants"][0]["fields"]))
+        if a["kind"] == "Enum":
+            return ("E", tuple(v["name"] for v in a["variants"]))
+        return None
+    pinned_enum_shapes = {}
+    for p in sorted(known_adts):
+        if p in have or p in tmap.values():
+            continue
+        if p in pin["adts"]:
+            want = ("S", tuple((n, t.replace(p, "Self")) for n, t in pin["adts"][p]))
+        else:
+            continue      # the pinned shape file does not record enum variants: enums are aligned by name only
+        cands = [q for q, a in have.items() if q not in known_adts and q not in tmap and _parent(q) == _parent(p) and _shape(a, q) == want and want[1]]
+        others = [x for x in pin["adts"] if x not in have and x not in tmap.values() and _parent(x) == _parent(p) and ("S", tuple((n, t.replace(x, "Self")) for n, t in pin["adts"][x])) == want]
+        if len(cands) == 1 and len(others) == 1:
+            tmap[cands[0]] = p
+    if tmap:
+        txt = json.dumps(raw)
+        for q in sorted(tmap, key=len, reverse=True):
+            txt = txt.replace(q, tmap[q])
+        new = json.loads(txt)
+        raw.clear()
+        raw.update(new)
+        log["types"] = dict(tmap)
+    cur = shape_of(raw)
     # ---- function renames
     missing = [p for p in pin["fns"] if p not in cur["fns"] and not p.startswith("<")]
     new = [p for p in cur["fns"] if p not in pin["fns"] and not p.startswith("<")]
@@ -142,6 +192,17 @@ def normalize(raw):
         cands = [n for n in new if n not in fn_map and _erase(n) == _erase(m)]
         others = [x for x in missing if _erase(x) == _erase(m)]
         if len(cands) == 1 and len(others) == 1:
+            fn_map[cands[0]] = m
+    # a free function moved to another module (or a method to a sibling impl elsewhere), name and signature unchanged:
+    # the only missing function of that name and signature, the only new one — crate-wide
+    for m in missing:
+        if m in fn_map.values():
+            continue
+        last = m.rsplit("::", 1)[-1]
+        cands = [n for n in new if n not in fn_map and n.rsplit("::", 1)[-1] == last and cur["fns"][n]["sig"] == pin["fns"][m]["sig"]]
+        others = [x for x in missing if x not in fn_map.values() and x.rsplit("::", 1)[-1] == last]
+        same_name_now = [n for n in cur["fns"] if n.rsplit("::", 1)[-1] == last and not n.startswith("<")]
+        if len(cands) == 1 and len(others) == 1 and len(same_name_now) == 1:
             fn_map[cands[0]] = m
     if fn_map:
         log["fns"] = dict(fn_map)
